@@ -26,6 +26,11 @@ abbrev M := Except Err
 
 abbrev Buf := List UInt8
 
+/-- did the computation end in an out-of-bounds access? -/
+def isOob {α : Type} : M α → Bool
+  | .error .oob => true
+  | _ => false
+
 def rd (b : Buf) (i : Nat) : M UInt8 :=
   match b[i]? with
   | some c => .ok c
